@@ -276,6 +276,7 @@ func c11ConnScenario(in sx.V) sx.V {
 	nonces := prng.New(7)
 	var mu sync.Mutex
 	handshakes := 0
+	ephemeral, ephemeralFresh := map[string]bool{}, true
 	accept := func(limit time.Duration) *c11LiveSession {
 		_ = l.(*net.TCPListener).SetDeadline(time.Now().Add(limit))
 		conn, err := l.Accept()
@@ -296,6 +297,10 @@ func c11ConnScenario(in sx.V) sx.V {
 		}
 		mu.Lock()
 		handshakes++
+		if ephemeral[string(hs[32:64])] {
+			ephemeralFresh = false
+		}
+		ephemeral[string(hs[32:64])] = true
 		mu.Unlock()
 		s := &c11LiveSession{conn: conn, tx: c11AesCTR(p[0:32], p[64:80]), nonces: nonces}
 		go s.serve(c11AesCTR(p[32:64], p[80:96]))
@@ -423,7 +428,7 @@ func c11ConnScenario(in sx.V) sx.V {
 	if len(sessions) == 1 && total >= 6000 {
 		rtt = sx.B(c.AverageRoundTrip() > 0) // pings were answered
 	}
-	return sx.L(sx.Nat(handshakes), sx.L(received...), sx.L(ms...), sx.Nat(int(c.Status())), rtt)
+	return sx.L(sx.Nat(handshakes), sx.L(received...), sx.L(ms...), sx.Nat(int(c.Status())), rtt, sx.B(ephemeralFresh))
 }
 
 // ---------- generator ----------
@@ -540,7 +545,7 @@ func c11ConnCases(c *Ctx) []c11ConnCase {
 func c11ConnCollect(c *Ctx, cs []c11ConnCase) {
 	for _, k := range cs {
 		out := c.Emit("c11.conn", k.in, k.class)
-		ok := out.K == sx.KL && len(out.List) == 5 && out.List[0].K == sx.KN && out.List[0].I() == k.n &&
+		ok := out.K == sx.KL && len(out.List) == 6 && out.List[5].Bool && out.List[0].K == sx.KN && out.List[0].I() == k.n &&
 			len(out.List[1].List) == len(k.want) && out.List[3].String() == "n1" && !out.List[4].IsA("f") && out.List[4].String() != "f"
 		for i := 0; ok && i < len(k.want); i++ {
 			ok = bytes.Equal(out.List[1].List[i].Bytes, k.want[i])
@@ -552,8 +557,8 @@ func c11ConnCollect(c *Ctx, cs []c11ConnCase) {
 		}
 		if !ok {
 			got := trunc(out.String(), 40)
-			if out.K == sx.KL && len(out.List) == 5 && out.List[0].K == sx.KN {
-				got = fmt.Sprintf("%d handshakes (history has %d sessions), %d of %d packets received, status %s, round trip measured %s", out.List[0].I(), k.n, len(out.List[1].List), len(k.want), out.List[3].String(), out.List[4].String())
+			if out.K == sx.KL && len(out.List) == 6 && out.List[0].K == sx.KN {
+				got = fmt.Sprintf("%d handshakes (history has %d sessions), %d of %d packets received, status %s, round trip measured %s, ephemeral keys fresh "+out.List[5].String()+"", out.List[0].I(), k.n, len(out.List[1].List), len(k.want), out.List[3].String(), out.List[4].String())
 				for i := 0; i < len(k.want) && i < len(out.List[1].List); i++ {
 					if !bytes.Equal(out.List[1].List[i].Bytes, k.want[i]) {
 						got += fmt.Sprintf("; first difference at packet %d: sent %d bytes %x.., received %d bytes", i, len(k.want[i]), k.want[i][:c11Min(len(k.want[i]), 8)], len(out.List[1].List[i].Bytes))
